@@ -45,6 +45,17 @@ def gen_cases(rng, tier, scale):
         pre = (['probes'] if k % 2 == 0 else []) + ['esc 2']
         parts = {'p1': '{{sv}}<{{{sv}}}>'} if k % 3 == 0 else {}
         cases.append(rcase(f'r{k}', t, data, pre=pre, partials=parts, entry=0, kind='random', tags=['random']))
+    # the result of a value-returning helperMissing hook (a name that is neither a field nor a helper) is escaped in
+    # {{x}} and never in {{{x}}} / {{&x}} / {{ {x} }}, at every nesting position
+    m_ = '\x01zero\x02'
+    for k, (tpl, exp) in enumerate([('A{{zz}}B{{{zz}}}C{{&zz}}D{{ {zz} }}E{{zz}}', f'A{m_}BzeroCzeroDzeroE{m_}'),
+                                    ('{{#each l}}{{{zz}}}{{zz}}{{/each}}', f'zero{m_}zero{m_}'),
+                                    ('{{#with o}}{{&zz}}{{/with}}{{> p}}', f'zerozero{m_}'),
+                                    ('{{{o.zz}}}|{{{zz}}}|{{#if t}}{{{zz}}}{{else}}{{/if}}', 'zero|zero|zero'),
+                                    ('{{#*inline "i"}}{{{zz}}}{{/inline}}{{> i}}{{#> nop}}{{&zz}}{{/nop}}', 'zerozero')]):
+        for hk in (4, 5, 6, 7):
+            cases.append(rcase(f'hv{k}_{hk}', tpl, {'o': {'k': 1}, 'l': [1, 2], 't': True}, pre=['probes', f'hooks {hk}', 'esc 2'], partials={'p': '{{{zz}}}{{zz}}'}, entry=0,
+                               kind='exact', exp=exp, tags=['value-returning-hook']))
     # default escape and no_escape at a few positions
     for k in range(60 * scale):
         v = rs(rng)
@@ -148,6 +159,8 @@ def oracle(c, io, mo):
         if sp != args:
             return f'marked spans {sp!r} differ from the arguments the escape fn received {args!r}'
         return None
+    if k == 'exact':
+        return None if out == c['exp'] else f'expected {c["exp"]!r}, got {out!r}'
     if k == 'default':
         v = c['v']
         e = py_escape(v) if c['esc'] == 0 else v
